@@ -59,7 +59,8 @@ META = {
         "translated pattern may contain at most one backtracking ANY* (a failed fullmatch over k independent `.*` is exponential). "
         "R2 (API): match_with_wildcard returns True exactly under `pattern is None`, otherwise fullmatch (or match of an "
         "expression the translator ends in \\Z - not `$`, which also matches before a final line feed) of the unmodified name against "
-        "the regex built from the unmodified pattern; the cached translator has the pattern as its only parameter, reads no mutable "
+        "the regex built from the unmodified pattern; at every call of match_with_wildcard in the package the pattern is never "
+        "tested for truthiness / emptiness next to the match (only None means 'no filter'; '' matches exactly the empty value); the cached translator has the pattern as its only parameter, reads no mutable "
         "global, and every call passes the whole pattern. "
         "R3 (the two filter functions): a role inference over the nested loops (inventory key / domain / object type / name, item "
         "fields; the Sphinx `domain:type` key cut at the same colon as from_sphinx and the native loader cut it; the item as a "
@@ -80,7 +81,10 @@ META = {
         "the enumeration short and that entries are skipped only after a failed wildcard test. "
         "R4 (callers and the inv: link): the destination is taken apart literally (`href.partition(':')[2].partition('#')`, not "
         "urlparse, which drops a `?query`), after normalizeLinkText plus the `%25` -> `%` step, and the path is split with "
-        "maxsplit 2 so that the object type is the remainder (types contain ':'); callers hand every filter on under its own role (keyword pass-through in both "
+        "maxsplit 2 so that the object type is the remainder (types contain ':'); a part that is left empty is handed on as None "
+        "(`part or None`), i.e. as an omitted filter; the destination is the token's href, which markdown-it's normalizeLink has "
+        "re-formatted with mdurl.parse/format unless the package replaces that hook (re-read from the installed markdown_it source; "
+        "reported under a known finding); callers hand every filter on under its own role (keyword pass-through in both "
         "get_inventory_matches, the resolver, the CLI options; href parts inv:<invs>:<domains>:<otypes>#<target>); both "
         "get_inventory_matches implementations return the filter results without re-ordering; an abstract execution of "
         "render_link_inventory per number of path parts (1, 2, 3; IndexError under suppress/except, tuple assignments evaluated as a "
@@ -187,8 +191,9 @@ def _elem_source(seq: ast.expr, i: int) -> ast.expr:
     if isinstance(seq, (ast.GeneratorExp, ast.ListComp)) and len(seq.generators) == 1:
         # (f(x) for x in (a, b, c)) unpacked: element i is f(<i-th item>)
         gen = seq.generators[0]
-        if not gen.ifs and not gen.is_async and isinstance(gen.target, ast.Name) and isinstance(gen.iter, (ast.Tuple, ast.List)) and i < len(gen.iter.elts) and not any(isinstance(x, ast.Starred) for x in gen.iter.elts):
-            var, item = gen.target.id, ast.unparse(gen.iter.elts[i])
+        src_i = _elem_source(gen.iter, i) if (not gen.ifs and not gen.is_async and isinstance(gen.target, ast.Name)) else None
+        if src_i is not None and not (isinstance(src_i, ast.Subscript) and src_i.value is gen.iter):
+            var, item = gen.target.id, ast.unparse(src_i)
 
             class Sub(ast.NodeTransformer):
                 def visit_Name(self, node):
@@ -1341,7 +1346,41 @@ def r2_api(corpus: Corpus, rep: Report, tier: str):
             rep.listed("C19.R2", k, fi.module.site(call), "other caller of the translator")
     if not callers:
         raise Unsupported("_create_regex has no resolved caller")
-    rep.expect_min("C19.R2", 4, "None rule, fullmatch, cache signature, call site")
+    # (d) at every call of match_with_wildcard: only None means "no filter". A caller that tests the pattern for truthiness
+    #     (or against '') before matching turns the empty pattern - which matches exactly the empty value - into "match all".
+    for fi, call in g.callers().get(mw.fq, []):
+        if fi.is_lambda or len(call.args) < 2:
+            continue
+        pat_txt = unparse(call.args[1])
+        k = f"{fi.fq}|the empty pattern is a pattern at `{short(call, 60)}` (only None is 'no filter')"
+        near: list[ast.expr] = []
+        x: ast.AST = call
+        while isinstance(parent(x), (ast.BoolOp, ast.UnaryOp)):
+            px = parent(x)
+            if isinstance(px, ast.BoolOp):
+                near += [v for v in px.values if v is not x]
+            x = px
+        try:
+            cfg_ = get_cfg(fi)
+            near += [t for t, _pol in cfg_.guards(cfg_.stmt_of(call))]
+        except Unsupported:
+            pass
+        bad = None
+        for e in near:
+            while isinstance(e, ast.UnaryOp) and isinstance(e.op, ast.Not):
+                e = e.operand
+            if unparse(e) == pat_txt:
+                bad = (e, "its truthiness")
+            elif isinstance(e, ast.Compare) and len(e.ops) == 1 and any(unparse(o) == pat_txt or (isinstance(o, ast.Call) and isinstance(o.func, ast.Name) and o.func.id == "len" and o.args and unparse(o.args[0]) == pat_txt) for o in (e.left, e.comparators[0])):
+                other = e.comparators[0] if unparse(e.left) == pat_txt or isinstance(e.left, ast.Call) else e.left
+                if isinstance(other, ast.Constant) and (other.value == "" or type(other.value) is int):
+                    bad = (e, f"`{short(e, 30)}`")
+        if bad is not None:
+            rep.violation("C19.R2", k, fi.module.site(bad[0]), f"the filter `{pat_txt}` is only applied under {bad[1]}: an empty pattern then counts as 'no filter' and lets every value through, "
+                          "although '' is a pattern that matches exactly the empty value (e.g. `myst-inv -l \"\"` must list only the entries whose location is '')")
+        else:
+            rep.ok("C19.R2", k, fi.module.site(call))
+    rep.expect_min("C19.R2", 10, "None rule, fullmatch, cache signature, call site, callers of match_with_wildcard")
 
 
 def _match_call(v: ast.expr):
@@ -2446,6 +2485,7 @@ def _value_role(e: ast.expr, fi: FunctionInfo, ctx=None, depth: int = 0) -> str 
         for d in _defs_of(fi, e.id):
             if isinstance(d, ast.Constant) and d.value is None:
                 continue
+            d = _or_none(d) or d
             if isinstance(d, ast.Subscript) and isinstance(d.slice, ast.Constant) and isinstance(d.slice.value, int) and (isinstance(d.value, ast.Name) or _is_path_split(d.value, fi)):
                 pd = _defs_of(fi, d.value.id) if isinstance(d.value, ast.Name) else [d.value]
                 while len(pd) == 1 and isinstance(pd[0], ast.Call) and isinstance(pd[0].func, ast.Name) and pd[0].func.id in ("list", "tuple") and len(pd[0].args) == 1 and not pd[0].keywords:
@@ -2688,6 +2728,18 @@ class _Reached(Exception):
 _CATCHES_INDEX = {"IndexError", "LookupError", "Exception", "BaseException"}
 
 
+def _or_none(e: ast.expr) -> ast.expr | None:
+    """X when ``e`` is `X or None` / `X if X else None` / `None if not X else X` (an empty string becomes None)."""
+    if isinstance(e, ast.BoolOp) and isinstance(e.op, ast.Or) and len(e.values) == 2 and isinstance(e.values[1], ast.Constant) and e.values[1].value is None:
+        return e.values[0]
+    if isinstance(e, ast.IfExp):
+        if isinstance(e.orelse, ast.Constant) and e.orelse.value is None and unparse(e.test) == unparse(e.body):
+            return e.body
+        if isinstance(e.body, ast.Constant) and e.body.value is None and isinstance(e.test, ast.UnaryOp) and isinstance(e.test.op, ast.Not) and unparse(e.test.operand) == unparse(e.orelse):
+            return e.orelse
+    return None
+
+
 class HrefParts:
     """Which value each of the (invs, domains, otypes) expressions holds when the path has p parts - at the lookup call
     (``stop`` = that call) or at the return statement reached (``stop`` = None: the decomposition lives in a helper)."""
@@ -2754,13 +2806,15 @@ class HrefParts:
             return ("PART", i if i >= 0 else p + i)
         if isinstance(e, ast.Name) and e.id in state:
             return state[e.id]
+        inner = _or_none(e)
+        if inner is not None:
+            # `part or None` / `part if part else None`: a part that is left empty counts as omitted
+            t = self._tok(inner, state, p)
+            return (*t[:2], "opt") if isinstance(t, tuple) and t[0] == "PART" else (t if t == "NONE" else "OTHER")
         if isinstance(e, ast.IfExp):
             v = self._test(e.test, p)
             if v is not None:
                 return self._tok(e.body if v else e.orelse, state, p)
-        if isinstance(e, ast.BoolOp) and isinstance(e.op, ast.Or) and len(e.values) == 2 and isinstance(e.values[1], ast.Constant) and e.values[1].value is None:
-            t = self._tok(e.values[0], state, p)
-            return t if t == "NONE" else "OTHER"  # `part or None` also maps '' to None: not the documented mapping
         return "OTHER"
 
     def _seq(self, e: ast.expr, state: dict, p: int):
@@ -2795,6 +2849,12 @@ class HrefParts:
             return a[lo:hi]
         if isinstance(e, ast.Call) and isinstance(e.func, ast.Name) and e.func.id in ("list", "tuple") and len(e.args) == 1 and not e.keywords:
             return self._seq(e.args[0], state, p)
+        if isinstance(e, (ast.GeneratorExp, ast.ListComp)) and len(e.generators) == 1 and not e.generators[0].ifs and isinstance(e.generators[0].target, ast.Name):
+            inner = self._seq(e.generators[0].iter, state, p)  # (part or None for part in <sequence>)
+            if inner is None:
+                return None
+            var = e.generators[0].target.id
+            return [self._tok(e.elt, {**state, var: tk}, p) for tk in inner]
         return None
 
     def _test(self, t: ast.expr, p: int):
@@ -2947,6 +3007,7 @@ def _href_parts_check(corpus: Corpus, rep: Report) -> None:
         raise Unsupported(f"{fi.qualname}: the three path filters come from different places")
     _href_shape_check(rep, fi, where, hp, calls[0], (corpus, g))
     label = ("inventory", "domain", "object type")
+    raw_empty: dict[int, tuple] = {}
     for p in (1, 2, 3):
         k = f"{fi.fq}|inv: path with {p} part(s): every given part reaches its filter"
         status, state, node = hp.at_lookup(p)
@@ -2959,6 +3020,10 @@ def _href_parts_check(corpus: Corpus, rep: Report) -> None:
             name = unparse(exprs_p[i])
             got = hp._tok(exprs_p[i], state, p) if not (isinstance(exprs_p[i], ast.Name) and exprs_p[i].id not in state) else "UNBOUND"
             want = ("PART", i) if i < p else "NONE"
+            if isinstance(got, tuple) and got[0] == "PART":
+                if got[:2] == want and len(got) < 3:
+                    raw_empty.setdefault(i, (name, node))
+                got = got[:2]
             if got == want:
                 continue
             if got in ("OTHER", "UNBOUND") or (isinstance(got, tuple) and got[0] != "PART"):
@@ -2973,6 +3038,16 @@ def _href_parts_check(corpus: Corpus, rep: Report) -> None:
             rep.violation("C19.R4", k, where.module.site(node) if node is not None else fi.module.site(calls[0]), f"href `inv:{':'.join('abc'[:p])}#t`: " + "; ".join(problems) + " (an IndexError raised while evaluating a later part discards the bindings evaluated in the same statement / skips the following ones)")
         else:
             rep.ok("C19.R4", k, fi.module.site(calls[0]))
+    # key, domain and type are each optional: a part that is left empty (`inv::std:label#t`) is an omitted filter (None),
+    # not the pattern '' - which matches no inventory key, domain or type
+    k = f"{fi.fq}|a path part that is left empty counts as omitted"
+    if raw_empty:
+        names = ", ".join(f"`{raw_empty[i][0]}` ({label[i]})" for i in sorted(raw_empty))
+        nd = raw_empty[min(raw_empty)][1]
+        rep.violation("C19.R4", k, where.module.site(nd) if nd is not None else fi.module.site(calls[0]), f"{names} receive(s) the path part as it is: for `<inv::std:label#foo>` / `<inv:key::label#foo>` the empty part is handed on as the pattern '', "
+                      "which no inventory key / domain / type matches, so the link reports \"No matches\" although the part is documented as optional")
+    else:
+        rep.ok("C19.R4", k, fi.module.site(calls[0]))
 
 
 def _href_shape_check(rep: Report, fi: FunctionInfo, where: FunctionInfo, hp: "HrefParts", lookup: ast.Call, ctx) -> None:
@@ -3018,6 +3093,32 @@ def _href_shape_check(rep: Report, fi: FunctionInfo, where: FunctionInfo, hp: "H
     decoded = [d for d in defs if any(isinstance(x, ast.Call) and isinstance(x.func, ast.Attribute) and x.func.attr == "replace" and len(x.args) == 2 and all(isinstance(a, ast.Constant) for a in x.args) and (x.args[0].value, x.args[1].value) == ("%25", "%") for x in ast.walk(d))]
     if not normalised:
         raise Unsupported(f"{f.qualname}: `{root.id}` does not come from normalizeLinkText; whether percent-escapes are undone is not modelled")
+    # (4) the destination is the token's href, which markdown-it has already passed through normalizeLink at parse time:
+    #     mdurl.parse/format reads the text after `inv:` as [auth@]host[:port] and re-emits it in that order
+    k4 = f"{fi.fq}|the destination has not been through markdown-it's URL normalisation (mdurl parse/format)"
+    srcs = list(defs)
+    if f.fq != fi.fq or where.fq == fi.fq:
+        pass
+    if where.fq != fi.fq:
+        srcs += [a for c in fi.local_nodes() if isinstance(c, ast.Call) and _callee(c, fi, ctx[1]) is not None and _callee(c, fi, ctx[1]).fq == where.fq for a in c.args]
+    from_token = any(isinstance(x, ast.Call) and isinstance(x.func, ast.Attribute) and x.func.attr == "attrGet" and x.args and isinstance(x.args[0], ast.Constant) and x.args[0].value == "href" for d_ in srcs for x in ast.walk(d_))
+    if not from_token:
+        raise Unsupported(f"{f.qualname}: the destination `{root.id}` is not traced to the link token's href attribute")
+    sib = ctx[0].sibling("markdown_it/common/normalize_url.py")
+    rep.saw_sibling(sib.rel)
+    nl = sib.functions.get("normalizeLink")
+    if nl is None:
+        raise AnchorMissing("markdown_it.common.normalize_url.normalizeLink")
+    called = {sib.resolve(dotted(c.func) or "") for c in nl.local_nodes() if isinstance(c, ast.Call)}
+    reparses = {"mdurl.parse", "mdurl.format"} <= called
+    overridden = [n for m_ in ctx[0].modules.values() for n in ast.walk(m_.tree) if isinstance(n, ast.Assign) and any(isinstance(t_, ast.Attribute) and t_.attr == "normalizeLink" for t_ in n.targets)]
+    if not reparses:
+        rep.ok("C19.R4", k4, f.module.site(normalised[0]), "the installed markdown-it does not re-format destinations")
+    elif overridden:
+        rep.ok("C19.R4", k4, overridden[0]._mod.site(overridden[0]), "normalizeLink is replaced for the parser")
+    else:
+        rep.violation("C19.R4", k4, f.module.site(normalised[0]), "the destination is read from the link token's href, which MarkdownIt.normalizeLink (never replaced by myst_parser) has re-formatted with mdurl.parse/format as scheme:[auth@]host[:port]: "
+                      "`<inv:key:iso:9001#clause-4>` reaches the filter as key:9001:iso:clause-4 (a trailing all-digit part is moved behind the first part as a port), `<inv:@k2:std:label#foo>` as k2:std:label:foo (a leading '@' is dropped), a bare trailing ':' is dropped")
     if decoded:
         rep.ok("C19.R4", k, f.module.site(decoded[0]))
     else:
@@ -3727,6 +3828,16 @@ def mutants(corpus: Corpus):
     add("c19-none-rule-dropped", "C19.R2", inv, nt, "pass", "omitted pattern")
     cc = find_node(mw, lambda n: isinstance(n, ast.Call) and unparse(n.func) == "_create_regex")
     add("c19-cache-key-not-full-pattern", "C19.R2", inv, cc.args[0] if cc is not None else None, f"{mw.params[1]}.strip()", "whole pattern")
+    # dce2a78 (an empty -l pattern is a pattern): revert + partial weakenings
+    cli_ = inv.func("inventory_cli")
+    nt_ = find_node(cli_, lambda n: isinstance(n, ast.Compare) and len(n.ops) == 1 and isinstance(n.ops[0], ast.IsNot) and isinstance(n.comparators[0], ast.Constant) and n.comparators[0].value is None and isinstance(parent(n), ast.BoolOp) and any(isinstance(v_, ast.UnaryOp) or isinstance(v_, ast.Call) for v_ in parent(n).values))
+    if nt_ is not None:
+        lv = unparse(nt_.left)
+        add("c19-cli-empty-location-pattern-means-no-filter", "C19.R2", inv, nt_, lv, "the empty pattern is a pattern")
+        add("c19-cli-empty-location-pattern-skipped", "C19.R2", inv, nt_, f'{lv} is not None and {lv} != ""', "the empty pattern is a pattern")
+        add("c19-cli-location-filter-needs-length", "C19.R2", inv, nt_, f"{lv} is not None and len({lv}) > 0", "the empty pattern is a pattern")
+    else:
+        out.append(("c19-cli-empty-location-pattern-means-no-filter", "the `is not None` test of the location option was not found next to its match"))
     # ---- R3
     fn = inv.func("filter_inventories")
     fs = inv.func("filter_sphinx_inventories")
@@ -3841,7 +3952,7 @@ def mutants(corpus: Corpus):
     # ---- R4
     rl = base.func("DocutilsRenderer.render_link_inventory")
     # class "an IndexError for a missing later part discards / skips the parts that were given"
-    wp = find_node(rl, lambda n: isinstance(n, ast.With) and "suppress" in unparse(n.items[0].context_expr) and len(n.body) == 3 and all(isinstance(b, ast.Assign) and isinstance(b.value, ast.Subscript) for b in n.body))
+    wp = find_node(rl, lambda n: isinstance(n, ast.With) and "suppress" in unparse(n.items[0].context_expr) and len(n.body) == 3 and all(isinstance(b, ast.Assign) and isinstance(_or_none(b.value) or b.value, ast.Subscript) for b in n.body))
     if wp is not None:
         ind = " " * wp.body[0].col_offset
         hdr = f"with {unparse(wp.items[0].context_expr)}:\n{ind}"
@@ -3849,7 +3960,15 @@ def mutants(corpus: Corpus):
         vs = ", ".join(unparse(b.value) for b in wp.body)
         add("c19-href-parts-merged-into-one-assignment", "C19.R4", base, wp, hdr + f"{tg} = {vs}", "inv: path with 1 part", canary=True)
         add("c19-href-parts-assigned-last-first", "C19.R4", base, wp, hdr + f"\n{ind}".join(ast.get_source_segment(base.src, b) for b in reversed(wp.body)), "inv: path with 2 part")
-        pv = unparse(wp.body[0].value.value)
+        pv = unparse((_or_none(wp.body[0].value) or wp.body[0].value).value)
+        # 94838ee (an empty part counts as omitted): revert + partial weakenings
+        opt = [b for b in wp.body if _or_none(b.value) is not None]
+        if len(opt) == 3:
+            add("c19-empty-href-parts-passed-as-empty-patterns", "C19.R4", base, wp, hdr + f"\n{ind}".join(f"{unparse(b.targets[0])} = {unparse(_or_none(b.value))}" for b in wp.body), "left empty counts as omitted")
+            add("c19-empty-inventory-part-passed-as-empty-pattern", "C19.R4", base, wp.body[0].value, unparse(_or_none(wp.body[0].value)), "left empty counts as omitted")
+            add("c19-empty-type-part-passed-as-empty-pattern", "C19.R4", base, wp.body[2].value, unparse(_or_none(wp.body[2].value)), "left empty counts as omitted")
+        else:
+            out.append(("c19-empty-href-parts-passed-as-empty-patterns", "the parts are not normalised with `or None` on this tree"))
         add("c19-href-parts-behind-length-guard", "C19.R4", base, wp, f"if len({pv}) > 2:\n{ind}" + f"\n{ind}".join(ast.get_source_segment(base.src, b) for b in wp.body), "inv: path with 2 part")
     else:
         out.append(("c19-href-parts-merged-into-one-assignment", "the `with suppress(IndexError)` block of three part assignments was not found"))
@@ -3933,13 +4052,16 @@ def mutants(corpus: Corpus):
     add("c19-refuri-base-url-dropped", "C19.R4", base, ru, "match.loc", "refuri")
     if ru is not None and isinstance(ru.body, ast.Call) and len(ru.body.args) == 2:
         add("c19-refuri-join-operands-swapped", "C19.R4", base, ru.body, f"{unparse(ru.body.func)}({unparse(ru.body.args[1])}, {unparse(ru.body.args[0])})", "refuri")
-    if ru is not None and isinstance(ru.body, ast.Call) and base.src.count("from urllib.parse import urlparse\n") == 1:
+    imp = next((st for st in base.tree.body if isinstance(st, ast.ImportFrom) and st.module == "urllib.parse" and st.level == 0), None)
+    if ru is not None and isinstance(ru.body, ast.Call) and imp is not None and imp.lineno < ru.lineno:
         # class "URL-relative resolution instead of appending the location to the base URL"
-        out.append(Mutant("c19-refuri-urljoin", "C19.R4", base.rel, splice(base.src, ru.body.func, "urljoin").replace("from urllib.parse import urlparse\n", "from urllib.parse import urljoin, urlparse\n"), expect="refuri"))
+        src_ = splice(base.src, ru.body.func, "urljoin")  # (the later edit first: the import line stays where it is)
+        src_ = splice(src_, imp, "from urllib.parse import " + ", ".join(sorted({a.name for a in imp.names} | {"urljoin"})))
+        out.append(Mutant("c19-refuri-urljoin", "C19.R4", base.rel, src_, expect="refuri"))
     else:
         out.append(("c19-refuri-urljoin", "refuri join / urllib import not found in the expected shape"))
-    dm = find_node(rl, lambda n: isinstance(n, ast.Assign) and unparse(n.targets[0]) == "domains" and isinstance(n.value, ast.Subscript))
-    add("c19-href-domain-read-from-type-slot", "C19.R4", base, dm.value.slice if dm is not None else None, "2", "domains=")
+    dm = find_node(rl, lambda n: isinstance(n, ast.Assign) and unparse(n.targets[0]) == "domains" and isinstance(_or_none(n.value) or n.value, ast.Subscript))
+    add("c19-href-domain-read-from-type-slot", "C19.R4", base, (_or_none(dm.value) or dm.value).slice if dm is not None else None, "2", "domains=")
     sg = sph.func("SphinxRenderer.get_inventory_matches")
     c = find_node(sg, lambda n: isinstance(n, ast.Call) and unparse(n.func).endswith("filter_sphinx_inventories"))
     if c is not None:
